@@ -324,6 +324,55 @@ def replay_all2(ctx, behs, what):
     vlib.log("%s: replayed %d behaviours, %d mismatching" % (what, len(behs), nbad))
 
 
+def record_traces2(ctx, nruns, nsteps):
+    """Seeded random driver for the two-variable ABF: one event per engine call with the projected state (3 x 2 bins)."""
+    rng = random.Random(ctx.seed + 177)
+    D = 1441440
+    nb = [3, 2]
+    events = []
+    d = vlib.Drv()
+    try:
+        for run_i in range(nruns):
+            p = {"sameStep": rng.random() < 0.5, "minS": 0, "fullS": 1, "per": [False, rng.random() < 0.3],
+                 "maxF": rng.choice([[0, 0], [0, 0], [2, 1]]), "applyBias": rng.random() < 0.85,
+                 "sub": rng.choice([[False, False], [True, False], [True, True], [False, True]]),
+                 "otherF": rng.choice([[0, 0], [0, 0], [-2, 0], [0, 3]]), "dev": True}
+            p["minS"], p["fullS"] = rng.choice([(0, 1), (1, 3), (0, 2), (2, 4)])
+            if p["per"][1]:
+                p["otherF"][1] = 0       # linear restraints are not accepted on periodic variables
+            run = Runner2(d, p, nb)
+            events.append({"e": "Reset", "p": p})
+            first, runs = True, 1
+            for k in range(nsteps):
+                u = rng.random()
+                a = "First" if first else ("NewRun" if (u < 0.08 and runs < 3) else ("Restart" if (u < 0.16 and runs < 3) else "Step"))
+                if a in ("NewRun", "Restart"):
+                    runs += 1
+                    x, f = lastx, lastf
+                else:
+                    x = [rng.randint(-1, nb[0]), rng.randint(-1, nb[1] + 1)]
+                    f = [rng.choice([-2, -1, 0, 1, 2, 3]), rng.choice([-3, 0, 1, 2])]
+                    off = [rng.choice([0.0, 0.5, 0.125]), rng.choice([0.0, 0.5, 0.75])]
+                lastx, lastf, first = x, f, False
+                got = run.act(a, x, f, off)
+                if got.get("op") == "died":
+                    ctx.violation("crash", "implementation died during a recorded two-variable run", {"p": p, "events": events[-5:]})
+                    d = vlib.Drv()
+                    break
+                n = nb[0] * nb[1]
+                if got["s"] is None or len(got["s"]) != n or len(got["gmean"]) != 2 * n:
+                    ctx.violation("replay2d-mismatch:grid-shape", "saved state of the two-variable ABF does not hold %d counts and %d gradient values" % (n, 2 * n), {"p": p})
+                    break
+                events.append({"e": a, "x": x, "f": f, "it": got["it"], "s": got["s"],
+                               "g": [[vlib.lat(got["gmean"][2 * b + i] * got["s"][b], D) for i in (0, 1)] for b in range(n)],
+                               "F": [vlib.lat(got["fa"][i] - p["otherF"][i], D) for i in (0, 1)],
+                               "ft": [vlib.lat(got["ft"][i], D) for i in (0, 1)]})
+            d.cmd(op="destroy")
+    finally:
+        d.close()
+    return events
+
+
 def run2d(ctx):
     quick = ctx.quick()
     r = vlib.tlc("MCAbf2D", "MCAbf2D_mc_quick.cfg" if quick else "MCAbf2D_mc_thorough.cfg", workers=16, timeout=3000)
@@ -345,6 +394,10 @@ def run2d(ctx):
     sb = list(s.beh)
     random.Random(ctx.seed + 12).shuffle(sb)
     replay_all2(ctx, sb[:(1500 if quick else 30000)], "2d-simulation")
+    ev = record_traces2(ctx, 30 if quick else 500, 12 if quick else 14)
+    r = vlib.validate_trace(ctx, "Abf2DTrace", "Abf2DTrace.cfg", ev, "2d-random-driver")
+    if r is not None and '"QUIRK"' in r.out:
+        ctx.violation("zero-total-subtract", "recorded two-variable execution: the ZeroTotal deviation fired", {"note": "see Abf2DTrace QUIRK output"})
 
 
 # ------------------------------------------------------------------ trace validation (code -> spec)
